@@ -100,8 +100,8 @@ struct upipe_h265f {
     struct uchain blockers;
     /** true if the pipe holds a reference on itself while urefs are buffered */
     bool buffered;
-    /** number of invocations of the Annex B parser (to detect re-entrance) */
-    unsigned int work_calls;
+    /** true while the buffered urefs are being handled */
+    bool draining;
     /** buffered output uref (used during urequest) */
     struct uref *uref_output;
 
@@ -294,7 +294,7 @@ static struct upipe *upipe_h265f_alloc(struct upipe_mgr *mgr,
     upipe_h265f_init_output(upipe);
     upipe_h265f_init_input(upipe);
     upipe_h265f_from_upipe(upipe)->buffered = false;
-    upipe_h265f_from_upipe(upipe)->work_calls = 0;
+    upipe_h265f_from_upipe(upipe)->draining = false;
     upipe_h265f_init_flow_format(upipe);
     upipe_h265f_init_flow_def(upipe);
     upipe_h265f_init_ubuf_mgr(upipe);
@@ -2571,7 +2571,6 @@ static bool upipe_h265f_find(struct upipe *upipe,
 static void upipe_h265f_work_annexb(struct upipe *upipe, struct upump **upump_p)
 {
     struct upipe_h265f *upipe_h265f = upipe_h265f_from_upipe(upipe);
-    unsigned int work_calls = ++upipe_h265f->work_calls;
     while (upipe_h265f->next_uref != NULL) {
         if (upipe_h265f->flow_def_requested == NULL &&
             upipe_h265f->flow_def_attr != NULL)
@@ -2584,14 +2583,6 @@ static void upipe_h265f_work_annexb(struct upipe *upipe, struct upump **upump_p)
 
         upipe_h265f->au_size -= start_size;
         upipe_h265f_end_annexb(upipe, upump_p);
-
-        /* Outputting an access unit may change the flow definition; when the
-         * provider answers the new request at once, the buffered input is
-         * handled from inside this call and this function has already run
-         * again on the same stream, starting over from this start code: the
-         * local state is stale and there is nothing left to do here. */
-        if (upipe_h265f->work_calls != work_calls)
-            return;
 
         if (upipe_h265f->flow_def_requested == NULL &&
             upipe_h265f->flow_def_attr != NULL)
@@ -2907,11 +2898,18 @@ static int upipe_h265f_check_ubuf_mgr(struct upipe *upipe,
     }
 
     /* Providers may answer from inside upipe_h265f_output_input (new
-     * parameter sets renew the requests), which runs this function again:
-     * keep the pipe until we are done, and release the reference of
-     * upipe_h265f_input only once. */
+     * parameter sets renew the requests), which runs this function again,
+     * from inside the parser: the buffered urefs must not be handled from
+     * there (the parser would run on the stream it is reading, and free the
+     * buffers it is reading from); the invocation that is already handling
+     * them goes on afterwards. Keep the pipe until we are done, and release
+     * the reference of upipe_h265f_input only once. */
+    if (upipe_h265f->draining)
+        return UBASE_ERR_NONE;
+    upipe_h265f->draining = true;
     upipe_use(upipe);
     upipe_h265f_output_input(upipe);
+    upipe_h265f->draining = false;
     upipe_h265f_unblock_input(upipe);
     if (upipe_h265f->buffered && upipe_h265f_check_input(upipe)) {
         /* All packets have been output, release again the pipe that has been
